@@ -393,6 +393,9 @@ func (p *pgen) conj(depth, from int, allowCut bool) *G {
 	for i := 0; i < n; i++ {
 		gs = append(gs, p.goal(depth, from, allowCut))
 	}
+	if n == 3 && p.r.coin(0.3) { // left-nested: ((a, b), c) -- a conjunction in goal position is transparent to cut
+		return gc(",", gc(",", gs[0], gs[1]), gs[2])
+	}
 	return conjOf(gs)
 }
 
